@@ -86,10 +86,26 @@ class Ctx:
         self.pc.append(c)
         self.solver.add(c)
 
-    def _check(self, *extra):
+    def _check(self, *extra, retry=True):
         t = time.time()
         self.queries += 1
         r = self.solver.check(*extra)
+        if retry and r == z3.unknown and ('cancel' in self.solver.reason_unknown() or 'timeout' in self.solver.reason_unknown()):
+            # a time-out (not incompleteness): one retry in a fresh solver with four times the limit — machine load must not decide
+            s2 = z3.Solver()
+            s2.set('timeout', int(self.timeout_ms) * 4)
+            s2.add(*self.solver.assertions())
+            r = s2.check(*extra)
+            if r != z3.unknown:
+                self.retried = getattr(self, 'retried', 0) + 1
+                if r == z3.sat:
+                    self._retry_model = s2.model()
+                    self.solver_time += time.time() - t
+                    # keep the model reachable through the main solver interface
+                    self.solver = _SolverWithModel(self.solver, self._retry_model)
+                    return True
+                self.solver_time += time.time() - t
+                return False
         self.solver_time += time.time() - t
         if r == z3.unknown:
             raise Inconclusive('solver returned unknown: ' + self.solver.reason_unknown())
@@ -104,7 +120,7 @@ class Ctx:
             c = None
         self.solver.set('timeout', self.feas_timeout_ms)
         try:
-            return self._check(*([] if c is None else [c]))
+            return self._check(*([] if c is None else [c]), retry=False)
         except Inconclusive:
             self.unknown_feasible += 1
             return True
@@ -178,6 +194,21 @@ class Ctx:
         if self._check():
             return self.solver.model()
         return None
+
+
+class _SolverWithModel:
+    """the path solver, answering model() once with a model found by the retry solver"""
+
+    def __init__(self, inner, model):
+        self._inner = inner._inner if isinstance(inner, _SolverWithModel) else inner
+        self._model = model
+
+    def model(self):
+        m, self._model = self._model, None
+        return m if m is not None else self._inner.model()
+
+    def __getattr__(self, name):
+        return getattr(self._inner, name)
 
 
 class Infeasible(Exception):
